@@ -52,10 +52,21 @@ def analyse(prog, ctx=None):
     res = {"us": US, "dispatcher": None, "name2eval": {}, "returns": []}
     n2e = dispatch_of(prog, US)
     D = US
+    table = None
+    if not n2e:
+        # a registry: a const table of (name, evaluator) pairs looked up by unify_sfunction or a private helper of it
+        cand = [US] + [b for b in prog.lib_bodies() if not b.is_pub and b.kind == "Fn" and
+                       any((t["callee"].get("resolved") or t["callee"].get("path") or "") == b.path for bb, t in US.calls())]
+        for fb in cand:
+            for cpath in prog.consts_mentioned(fb):
+                prs = [(n, f) for n, f in prog.const_pairs.get(cpath, []) if f.split("::")[-1].startswith("evaluate_")]
+                if len(prs) >= 4:
+                    n2e, table = dict(prs), cpath
+                    res["registry"] = cpath
     if not n2e:
         # a helper called by unify_sfunction does the dispatch
         for bb, t in US.calls():
-            nm = t["callee"].get("resolved") or t["callee"]["path"]
+            nm = t["callee"].get("resolved") or t["callee"].get("path") or ""
             h = next((b for b in prog.lib_bodies() if b.path == nm), None)
             if h is not None and h is not US:
                 d2 = dispatch_of(prog, h)
@@ -71,6 +82,9 @@ def analyse(prog, ctx=None):
         t = strip(t)
         if _is_eval(t):
             return len(t[2]) >= 2 and strip(t[2][0]) == terms and strip(t[2][1]) == ssp
+        if table is not None and t[0] == "call" and t[1] == "<indirect>":
+            # the evaluator found in the registry, applied to this term's own arguments
+            return len(t[2]) == 2 and strip(t[2][0]) == terms and strip(t[2][1]) == ssp
         if t[0] == "field" and t[2] in ("Some.0", "Ok.0"):
             c = strip(t[1])
             if c[0] == "call" and D is not US and c[1] == D.path:
